@@ -31,6 +31,41 @@ type marker struct {
 
 var markerPath string
 
+// the running child's configuration (set by isolated), for abortOnHang
+var childCfg *vh.Config
+var childProp string
+var abortOnce sync.Once
+
+// abortOnHang: a call into the implementation did not return within its deadline. Its goroutine cannot be
+// killed and may keep allocating until the process dies at some unrelated later point, so the run stops
+// here: the result holds exactly this failure with the input that hangs, and the process exits.
+func abortOnHang(what string, input any) {
+	abortOnce.Do(func() {
+		if childCfg == nil {
+			return
+		}
+		res := vh.NewResult(childProp, childCfg.Seed)
+		res.Rule = "run stopped: a call into the implementation did not return within its deadline (20 s)"
+		res.Evaluations = 1
+		res.Fail(vh.Failure{Case: 0, Stream: "deadline",
+			Sig:    childProp + " " + what + ": does not return within the deadline",
+			Clause: "never hangs", Input: input, Got: "no result after 20 s"})
+		cf := &vh.CasesFile{Header: "From Coq Require Import String List NArith.", Type: "nat", Check: "(fun _ => true)"}
+		if shards, err := cf.WriteShards(childCfg.Out, "cases", 10); err == nil {
+			res.Shards = shards
+		}
+		for _, old := range globMarkers(markerPath) {
+			if b, err := os.ReadFile(old); err == nil {
+				res.Notes = append(res.Notes, "in flight when the deadline passed: "+truncate(string(b), 4000))
+			}
+			os.Remove(old)
+		}
+		if res.Write(childCfg.Out) == nil {
+			os.Exit(0)
+		}
+	})
+}
+
 // markW records the in-flight case of worker w (one marker file per worker).
 func markW(w, caseNo int, stream string, input any) {
 	if markerPath == "" {
@@ -102,6 +137,7 @@ func isolated(prop string, run func(cfg *vh.Config) error) func(cfg *vh.Config) 
 		mp := filepath.Join(cfg.Out, "inflight.json")
 		if os.Getenv(childEnv) == "1" {
 			markerPath = mp
+			childCfg, childProp = cfg, prop
 			return run(cfg)
 		}
 		for _, old := range globMarkers(mp) {
